@@ -343,6 +343,11 @@ type Config struct {
 	// parked again at site (or finished: site == -1).
 	WakeCmd func(task int, now int64) int
 	OnYield func(task, site int, now int64)
+	// Sleep runs on the driver goroutine after OnYield when task has parked at site; a positive
+	// return value d keeps the task out of scheduling until the virtual clock has reached now+d
+	// (arrival offsets and think times of an open workload). When every parked task is asleep
+	// the clock jumps to the earliest wake-up time: sleeping costs no steps and no real time.
+	Sleep   func(task, site int, now int64) int64
 	KeepLog bool
 }
 
@@ -367,6 +372,9 @@ type Result struct {
 	Deadlock         bool
 	Capped           bool
 	Stalls           int // stall faults that fired (the victim reached its stall point while others were still running)
+	Sleeps           int   // times a task was put to sleep on the virtual clock
+	ClockJumps       int   // times the virtual clock jumped because every parked task was asleep
+	SleptTicks       int64 // virtual ticks skipped by those jumps
 	StallThaws       int // of which ended because the awaited progress of other tasks happened
 }
 
@@ -460,6 +468,7 @@ func Run(cfg Config, bodies []func(t *Task)) *Result {
 	live := n
 	last := -1
 	var now int64
+	sleepUntil := make([]int64, n)
 	accept := func(t *Task, m msg) bool {
 		res.Steps++
 		res.SiteHits[m.site]++
@@ -504,6 +513,12 @@ func Run(cfg Config, bodies []func(t *Task)) *Result {
 		}
 		if cfg.OnYield != nil {
 			cfg.OnYield(t.ID, m.site, now)
+		}
+		if cfg.Sleep != nil && m.site != -1 {
+			if d := cfg.Sleep(t.ID, m.site, now); d > 0 {
+				sleepUntil[t.ID] = now + d
+				res.Sleeps++
+			}
 		}
 		return true
 	}
@@ -556,12 +571,27 @@ func Run(cfg Config, bodies []func(t *Task)) *Result {
 		cand = cand[:0]
 		// Candidate order: the task that ran last first (a zero draw keeps
 		// running it), then the others by id.
-		if last >= 0 && tasks[last].state == 0 && !(stalled && last == stallTask) {
+		if last >= 0 && tasks[last].state == 0 && !(stalled && last == stallTask) && sleepUntil[last] <= now {
 			cand = append(cand, last)
 		}
 		for _, t := range tasks {
-			if t.state == 0 && t.ID != last && !(stalled && t.ID == stallTask) {
+			if t.state == 0 && t.ID != last && !(stalled && t.ID == stallTask) && sleepUntil[t.ID] <= now {
 				cand = append(cand, t.ID)
+			}
+		}
+		if len(cand) == 0 {
+			// Nobody is awake. If somebody sleeps, the clock jumps to the earliest wake-up.
+			wakeAt := int64(-1)
+			for _, t := range tasks {
+				if t.state == 0 && sleepUntil[t.ID] > now && !(stalled && t.ID == stallTask) && (wakeAt < 0 || sleepUntil[t.ID] < wakeAt) {
+					wakeAt = sleepUntil[t.ID]
+				}
+			}
+			if wakeAt >= 0 {
+				res.ClockJumps++
+				res.SleptTicks += wakeAt - now
+				now = wakeAt
+				continue
 			}
 		}
 		if stalled && len(cand) == 0 {
